@@ -153,6 +153,7 @@ def main():
     ap.add_argument("--tier", default=os.environ.get("VERIF_TIER", "quick"))
     ap.add_argument("--replay", default=None)
     ap.add_argument("--no-evidence", action="store_true")
+    ap.add_argument("--regress-only", action="store_true", help="replay the committed regression cases only (seconds)")
     a = ap.parse_args()
     prop = a.prop.upper()
     tier = a.tier if a.tier in ("quick", "thorough") else "quick"
@@ -199,16 +200,37 @@ def main():
         if files:
             fd, out = tempfile.mkstemp(prefix="reg_", suffix=".json", dir=os.path.join(HERE, ".cache"))
             os.close(fd)
-            cmd = [env.PY, "-m", "vlib.regress", prop, reg_dir, out]
-            try:
-                p = subprocess.run(cmd, cwd=HERE, env=env.worker_env(), capture_output=True, text=True, timeout=900)
-            except subprocess.TimeoutExpired as te:
-                p = te
-                p.stdout, p.stderr = "", "regression replays did not finish within 900s"
-            try:
-                reg_results = json.load(open(out))
-            except Exception:
-                harness_errors.append("regressions: " + (p.stdout + p.stderr)[-2000:])
+            done = []
+            # the replay process may die inside native code (a crash is a violation of the replayed case, not a
+            # harness error): results are written after every case, and the run resumes behind a case that crashed
+            for _attempt in range(len(files) + 1):
+                cmd = [env.PY, "-m", "vlib.regress", prop, reg_dir, out]
+                wenv = dict(env.worker_env(), VERIF_REGRESS_SKIP=json.dumps(done))
+                try:
+                    p = subprocess.run(cmd, cwd=HERE, env=wenv, capture_output=True, text=True, timeout=900)
+                except subprocess.TimeoutExpired as te:
+                    p = te
+                    p.stdout, p.stderr, p.returncode = "", "regression replays did not finish within 900s", 1
+                try:
+                    part = json.load(open(out))
+                except Exception:
+                    part = []
+                cur = None
+                if os.path.exists(out + ".cur"):
+                    cur = open(out + ".cur").read().strip() or None
+                    os.unlink(out + ".cur")
+                reg_results.extend(part)
+                done.extend(r["file"] for r in part)
+                if p.returncode in (-4, -6, -7, -8, -11) and cur and cur not in done:
+                    rec = json.load(open(os.path.join(reg_dir, cur)))
+                    reg_results.append(dict(file=cur, sub=rec.get("sub"), failed=True, kind=f"crash:signal{-p.returncode}",
+                                            message="the replay process died while running this case", known=None))
+                    done.append(cur)
+                    open(out, "w").write("[]")
+                    continue
+                if p.returncode != 0 or len(done) < len(files):
+                    harness_errors.append("regressions: " + (p.stdout + p.stderr)[-2000:])
+                break
             os.unlink(out)
             for r in reg_results:
                 if r.get("error"):
@@ -220,7 +242,7 @@ def main():
                                            replay=os.path.join(reg_dir, r["file"]), bucket=f"{r['sub']}|{r['kind']}"))
 
     # 2. generated search
-    results = run_workers(prop, tier, seed, bins, subs_env)
+    results = [] if a.regress_only else run_workers(prop, tier, seed, bins, subs_env)
     merged = dict(evaluations=0, classes={}, nontrivial=set(), nontrivial_constructed=0, samples=[],
                   known_hits={}, rejected={}, exhaustive=[], per_sub={}, notes=[])
     for r in results:
@@ -281,7 +303,7 @@ def main():
             "checks import groupby_lib from %s working tree; numba cache keyed on a hash of all sources" % env.REPO,
         ],
     )
-    if not a.no_evidence:
+    if not a.no_evidence and not a.regress_only:
         os.makedirs(os.path.join(HERE, "evidence"), exist_ok=True)
         with open(os.path.join(HERE, "evidence", f"{prop}.json"), "w") as fh:
             json.dump(evidence, fh, indent=1, sort_keys=True, default=core.jdefault)
